@@ -122,12 +122,13 @@ Lemma from_bech32_display s bl p a : from_bech32 pkv s bl p = AOk a -> eq_lower 
 Proof. unfold from_bech32. intros E M. destruct bl; cbn [hrp_of] in M.
   - destruct (segwit_decode cfg_blech s) as [[v data]|] eqn:D; [|discriminate]. destruct (Nat.ltb (length data) 33); [discriminate|].
     remember (firstn 33 data) as pk eqn:Epk. remember (skipn 33 data) as pr eqn:Epr.
-    destruct (pkv pk); [|discriminate]. injection E as <-. split; [eexists _, _; reflexivity|].
+    destruct (pkv pk); [|discriminate]. destruct (prog_len_bad pr); [discriminate|]. injection E as <-. split; [eexists _, _; reflexivity|].
     unfold display. cbn [a_params a_payload a_blinder]. subst pk pr. rewrite firstn_skipn.
     assert (Ic : In (code_for cfg_blech v) the_codes).
     { unfold code_for. change (sw_code_v0 cfg_blech) with blech32. change (sw_code_v1 cfg_blech) with blech32m. destruct (v =? 0); cbn; tauto. }
     exact (segwit_canonical cfg_blech s v data (p_blech p) D Ic M).
-  - destruct (segwit_decode cfg_bech s) as [[v data]|] eqn:D; [|discriminate]. injection E as <-. split; [eexists _, _; reflexivity|].
+  - destruct (segwit_decode cfg_bech s) as [[v data]|] eqn:D; [|discriminate]. destruct (prog_len_bad data); [discriminate|].
+    injection E as <-. split; [eexists _, _; reflexivity|].
     unfold display. cbn [a_params a_payload a_blinder].
     assert (Ic : In (code_for cfg_bech v) the_codes) by (unfold code_for; cbn [sw_code_v0 sw_code_v1 cfg_bech]; destruct (v =? 0); cbn; tauto).
     exact (segwit_canonical cfg_bech s v data (p_bech p) D Ic M). Qed.
@@ -269,10 +270,11 @@ Proof. destruct a as [p pay blinder]. intros (Ip & WB & WP) (v & prog & EP). cbn
       apply wpl_ok; [change (sw_len_min cfg_bech) with 2%nat; change (sw_len_max cfg_bech) with 40%nat; lia|].
       change (sw_len_v0_a cfg_bech) with 20%nat; change (sw_len_v0_b cfg_bech) with 32%nat. intros E. destruct (V0 E); lia. }
   assert (FB : from_bech32 pkv (upper (encode_segwit c h v data)) bl p = AOk (mkAddr p (WitnessProgram v prog) blinder)).
-  { unfold from_bech32. destruct blinder as [b|]; cbn [bl] in *; rewrite DEC; [|reflexivity].
+  { assert (PLB : prog_len_bad prog = false) by (apply prog_len_ok; exact LP).
+    unfold from_bech32. destruct blinder as [b|]; cbn [bl] in *; rewrite DEC; [|unfold data; rewrite PLB; reflexivity].
     destruct WB as [Lb Pb]. unfold data. rewrite app_length. destruct (Nat.ltb_spec (length b + length prog) 33); [lia|].
     rewrite <- Lb. rewrite firstn_app, Nat.sub_diag, firstn_all, firstn_O, app_nil_r, Pb.
-    rewrite skipn_app, Nat.sub_diag, skipn_all. reflexivity. }
+    rewrite skipn_app, Nat.sub_diag, skipn_all. change ([] ++ skipn 0 prog) with prog. rewrite PLB. reflexivity. }
   assert (FP : find_prefix (upper (encode_segwit c h v data)) = upper h).
   { unfold find_prefix, encode_segwit. rewrite F1. set (w := (v :: bytes_to_fes data) ++ _).
     assert (Sw : sym_word w) by (apply Forall_app; split; [constructor; [exact V32|apply bytes_to_fes_sym]|apply checksum_syms_sym]).
